@@ -291,6 +291,7 @@ func stringerGuard(src bmodel.Node, a gmodel.Assignment) gmodel.Assignment {
 // createWithConverter creates an assignment using the given field converter.
 // It resolves the source field, applies the converter, and creates an assignment from the result.
 func (b *assignmentBuilder) createWithConverter(lhs, rhs bmodel.Node, converter *option.FieldConverter) (gmodel.Assignment, error) {
+	var argNode bmodel.Node
 	converterNode := func() bmodel.Node {
 		root := rhs
 		for ; root.Parent() != nil; root = root.Parent() {
@@ -303,7 +304,7 @@ func (b *assignmentBuilder) createWithConverter(lhs, rhs bmodel.Node, converter 
 			return nil
 		}
 
-		argNode, ok := b.castNode(converter.ArgType(), rhsNode)
+		argNode, ok = b.castNode(converter.ArgType(), rhsNode)
 		if !ok {
 			if !util.IsPtr(converter.ArgType()) {
 				return nil
@@ -331,7 +332,13 @@ func (b *assignmentBuilder) createWithConverter(lhs, rhs bmodel.Node, converter 
 	if converterNode != nil {
 		rhsExpr := converterNode.AssignExpr()
 		logger.Printf("%v: assignment found: %v = %v, err", posStr, lhsExpr, rhsExpr)
-		return nilGuard(converterNode, gmodel.SimpleField{LHS: lhsExpr, RHS: rhsExpr, Error: converter.RetError()}), nil
+		var a gmodel.Assignment = gmodel.SimpleField{LHS: lhsExpr, RHS: rhsExpr, Error: converter.RetError()}
+		if converter.Generated() && argNode.ObjNullable() {
+			// A generated function dereferences its source: a nil nested pointer
+			// has nothing to convert and leaves the destination untouched.
+			a = gmodel.NestStruct{NullCheckExpr: argNode.NullCheckExpr(), Contents: []gmodel.Assignment{a}}
+		}
+		return nilGuard(converterNode, a), nil
 	}
 
 	logger.Warnf("%v: no assignment for %v [%v]", posStr, lhsExpr, b.imports.TypeName(lhs.ExprType()))
